@@ -11,6 +11,13 @@ import time
 name = os.path.basename(sys.argv[0])
 argv = sys.argv[1:]
 mode = os.environ.get("VF_FAKE_MODE", "ok")
+if mode == "hang" and os.environ.get("VF_FAKE_IGNTERM"):
+    # a stubborn program: polite termination requests are ignored (before the log line is written,
+    # so that a driver that has seen the line knows the handler is in place)
+    import signal
+    signal.signal(signal.SIGTERM, signal.SIG_IGN)
+    signal.signal(signal.SIGINT, signal.SIG_IGN)
+    signal.signal(signal.SIGHUP, signal.SIG_IGN)
 log = os.environ.get("VF_FAKE_LOG")
 if log:
     with open(log, "a") as f:
